@@ -36,7 +36,7 @@ Proof. intros pgn da sa Hp Hd Hs. rewrite id_build_pdu1 by assumption. exact (ex
 Print Assumptions C02_addressing.
 
 (* the premise of abstracting from time in this property's model: the code it models waits, polls and gives up
-   exactly where the model says (primitive codes in Proofs/W_*.v); re-extracted from the source on every run *)
+   with exactly the kinds of primitives the model accounts for (codes in Proofs/W_*.v); re-extracted from the source on every run *)
 Require Import GV.Gen.Consts GV.Proofs.W_authority GV.Proofs.W_hydraulic GV.Proofs.W_net GV.Proofs.W_can.
 Theorem C02_time_abstraction : waits_authority = (@nil Z) /\ waits_hydraulic = (@nil Z) /\ waits_net = (@nil Z) /\ waits_can = (@nil Z).
 Proof. exact (conj w_authority (conj w_hydraulic (conj w_net w_can))). Qed.
